@@ -101,15 +101,17 @@ def decode_budget(n, bit_length):
 
 def repair_bounds(n, k, heap):
     row_bound = 100 * (n + 1) * (k + 1)
-    jumps = int(20000 * (n + 1) * (k + 1) + 50 * min(heap, 1e6) * (n + 1))
+    # analysed cost: <= ~64 k^2 back-edges per detection (k recalls x 8 candidate repairs x 2k-step walks x 4-way
+    # membership tests), <= n/(k+1) detections, plus the candidate product (<= heap x number of segments)
+    jumps = int(2000 * (n + 1) * (k + 1) + 10 * min(heap, 1e6) * (n + 1))
     return row_bound, jumps
 
 
 def budgeted(fn, kwargs, jumps, rows=None):
-    """Run on the step clock; a first back-edge trip with row reads in bound is re-executed once with 20x budget."""
+    """Run on the step clock; a first back-edge trip with row reads in bound is re-executed once with 5x budget."""
     out = SC.call(fn, kwargs, jump_budget=jumps, row_budget=(rows + 1) if rows is not None else None)
-    if out.kind == "budget" and out.which == "back-edge":
-        out = SC.call(fn, kwargs, jump_budget=20 * jumps, row_budget=(rows + 1) if rows is not None else None)
+    if out.kind == "budget" and out.which == "back-edge" and rows is not None:
+        out = SC.call(fn, kwargs, jump_budget=5 * jumps, row_budget=(rows + 1) if rows is not None else None)
     return out
 
 
@@ -255,6 +257,8 @@ def op_write(op, world, ctx):
     nlive = len(design.live)
     row_bound, jumps = encode_bounds(L, nlive)
     ctx.stats.lib_calls += 1
+    if not world.proxy:
+        jumps = min(jumps, 400000)     # transparency self-test only: no row budget, so keep the hang backstop short
     out = budgeted(dsw.encode, kwargs, jumps * ctx.budget_scale, row_bound if world.proxy else None)
     rec = {"out": out.brief(), "res": None}
     strand = check = None
